@@ -8,8 +8,24 @@ use crate::model::{Cfg, Mode};
 /// handler had been entered) before `shutdown()` was called.
 pub const OWED: [&str; 4] = ["mid_handler", "started_unparsed", "keepalive_unparsed", "queued"];
 
+/// Keys of the clauses that compare a real-time interval with an upper bound. Under CPU
+/// starvation they can fire spuriously: they are only reported when they fire in every one of
+/// several executions of the schedule, otherwise counted as `timing-inconclusive`.
+pub const TIMING_KEYS: [&str; 4] = [
+    "forced-not-prompt",
+    "graceful-resolve-after-timeout",
+    "graceful-resolve-late-after-idle",
+    "handle-await-late",
+];
+
+pub fn is_timing_key(k: &str) -> bool {
+    TIMING_KEYS.contains(&k)
+}
+
 pub fn judge(cfg: &Cfg, o: &Outcome) -> Vec<(String, String)> {
     let mut v: Vec<(String, String)> = Vec::new();
+    // upper bounds get wider by what this process was observably starved during the execution
+    let slack_ms = SLACK_MS as f64 + 4.0 * o.max_sched_gap_ms;
     if !o.called {
         return v;
     }
@@ -73,7 +89,7 @@ pub fn judge(cfg: &Cfg, o: &Outcome) -> Vec<(String, String)> {
     } else if o.resolve_ms_after_t0 >= 0.0 {
         match cfg.mode {
             Mode::Forced => {
-                if o.resolve_ms_after_t0 > SLACK_MS as f64 {
+                if o.resolve_ms_after_t0 > slack_ms {
                     v.push((
                         "forced-not-prompt".into(),
                         format!("Forced shutdown resolved {:.0} ms after the worker commands were sent", o.resolve_ms_after_t0),
@@ -92,12 +108,12 @@ pub fn judge(cfg: &Cfg, o: &Outcome) -> Vec<(String, String)> {
                     ));
                 }
                 let blocked_forever = o.reqs.iter().any(|r| r.never_opens && r.entered);
-                if o.resolve_ms_after_t0 > timeout_ms + SLACK_MS as f64 {
+                if o.resolve_ms_after_t0 > timeout_ms + slack_ms {
                     v.push((
                         "graceful-resolve-after-timeout".into(),
                         format!("graceful shutdown resolved {:.0} ms after the commands were sent, timeout {timeout_ms} ms", o.resolve_ms_after_t0),
                     ));
-                } else if !blocked_forever && !o.blocked_handler_at_resolve && o.resolve_ms_after_idle > SLACK_MS as f64 {
+                } else if !blocked_forever && !o.blocked_handler_at_resolve && o.resolve_ms_after_idle > slack_ms {
                     v.push((
                         "graceful-resolve-late-after-idle".into(),
                         format!("all handlers had finished, yet the shutdown future resolved only {:.0} ms later", o.resolve_ms_after_idle),
@@ -107,10 +123,15 @@ pub fn judge(cfg: &Cfg, o: &Outcome) -> Vec<(String, String)> {
         }
     }
     // (4) awaiting the handle resolves
-    if o.resolved && (!o.handle_resolved || o.handle_ms_after_resolve > SLACK_MS as f64) {
+    if o.resolved && !o.handle_resolved {
         v.push((
             "handle-await-unresolved".into(),
-            format!("awaiting the ServerHandle did not resolve within {SLACK_MS} ms of the shutdown future (resolved={}, {:.0} ms)", o.handle_resolved, o.handle_ms_after_resolve),
+            "awaiting the ServerHandle had not resolved several seconds after the shutdown future".into(),
+        ));
+    } else if o.resolved && o.handle_ms_after_resolve > slack_ms {
+        v.push((
+            "handle-await-late".into(),
+            format!("awaiting the ServerHandle resolved only {:.0} ms after the shutdown future", o.handle_ms_after_resolve),
         ));
     }
     v.sort();
